@@ -125,7 +125,7 @@ def run(p: Program, rep: Report, tier: str) -> None:
             rep.undecide("R18.2", f"the default-port table {ast.unparse(_table_expr(tables[0], table_mod))[:60]} is not a foldable constant")
         else:
             rep.violation("R18.2", construct(build, text=f"default ports {tbl}"), where(build, tables[0]), f"the default-port table is {tbl}")
-        if ast.unparse(tables[0].slice) == "scheme":
+        if ast.unparse(tables[0].slice) == "scheme" or (isinstance(tables[0].slice, ast.Attribute) and tables[0].slice.attr == "scheme" and isinstance(tables[0].slice.value, ast.Name)):
             rep.ok("R18.2", "the default port is looked up for the URL's own scheme")
         else:
             rep.violation("R18.2", construct(build, text=f"default port of {ast.unparse(tables[0].slice)}"), where(build, tables[0]), "the default port is not looked up for the URL's own scheme")
@@ -434,6 +434,11 @@ def gateway_url_branches(p: Program, rep: Report, rule: str) -> None:
     paths, col, it = run_paths(p, init, url, inline=inline_except("_build_url"))
     rep.cfg_paths += len(paths)
     seen = {}
+    if not any(e.kind == "call" and callee_is(e.a, "_build_url") for pa in paths for e in pa.events):
+        # no gateway branch of __init__ reaches the builder by that name (it was replaced by another construction - a value
+        # object with alternative constructors ...): the hand-off clauses are not decided, rather than reported missing
+        rep.undecide(rule, "URL.__init__: no path calls _build_url(...): how the gateway values reach the URL text is not recognised")
+        return
     for pa in paths:
         if pa.exit != "return":
             continue
